@@ -30,6 +30,7 @@ struct Op {
     // deliver
     uint32_t pick = 0; int fault = F_INTACT; uint32_t fa = 0, fb = 0; int to = 0; bool consume = true;
     bool null_mlen = false, null_tag = false;
+    uint32_t align = 0; // three 4-bit offsets: message, ad, output buffer alignment
 };
 
 struct PlanT {
@@ -65,11 +66,12 @@ bool real_eq_model(const crypto_secretstream_xchacha20poly1305_state &r, const r
 }
 
 // exact-size heap copy so that an over-read or over-write by the library is visible to ASan
+// (the END of the buffer is exact; `off` bytes of slack in front vary the alignment the library sees)
 struct Exact {
-    unsigned char *p; size_t n;
-    explicit Exact(size_t n_) : p((unsigned char *) malloc(n_ ? n_ : 1)), n(n_) {}
-    Exact(const unsigned char *src, size_t n_) : p((unsigned char *) malloc(n_ ? n_ : 1)), n(n_) { if (n_) memcpy(p, src, n_); }
-    ~Exact() { free(p); }
+    unsigned char *base, *p; size_t n;
+    explicit Exact(size_t n_, size_t off = 0) : base((unsigned char *) malloc(n_ + off ? n_ + off : 1)), p(base + off), n(n_) {}
+    Exact(const unsigned char *src, size_t n_, size_t off = 0) : base((unsigned char *) malloc(n_ + off ? n_ + off : 1)), p(base + off), n(n_) { if (n_) memcpy(p, src, n_); }
+    ~Exact() { free(base); }
     Exact(const Exact &) = delete;
 };
 
@@ -148,7 +150,8 @@ struct Exec {
         ref::Bytes expect = ref::stream_push(s.model_push, it.m.data(), it.m.size(), it.ad.data(), it.ad.size(), it.tag);
         if (ref::ld32(before.nonce) == 0xffffffffu) res.count("probe.counter_wrap_rekey");
         if (it.tag & 2) res.count("probe.rekey_tag");
-        Exact m(it.m.data(), it.m.size()), ad(it.ad.data(), it.ad.size()), out(it.m.size() + crypto_secretstream_xchacha20poly1305_ABYTES);
+        size_t al = op.align; // 0..15: alignment of the caller's buffers
+        Exact m(it.m.data(), it.m.size(), al & 15), ad(it.ad.data(), it.ad.size(), (al >> 4) & 15), out(it.m.size() + crypto_secretstream_xchacha20poly1305_ABYTES, (al >> 8) & 15);
         unsigned long long outlen = 12345;
         int rc;
         {
@@ -195,9 +198,10 @@ struct Exec {
         crypto_secretstream_xchacha20poly1305_state clone = dst.pull_st;
         crypto_secretstream_xchacha20poly1305_state *st = on_clone ? &clone : &dst.pull_st;
         crypto_secretstream_xchacha20poly1305_state before = *st;
-        Exact in(bytes.data(), bytes.size()), adb(ad.data(), ad.size());
+        size_t al = op.align;
+        Exact in(bytes.data(), bytes.size(), al & 15), adb(ad.data(), ad.size(), (al >> 4) & 15);
         size_t mcap = bytes.size() >= 17 ? bytes.size() - 17 : 0;
-        Exact mout(mcap);
+        Exact mout(mcap, (al >> 8) & 15);
         unsigned long long mlen = 777; unsigned char tag = 0x55;
         int rc;
         {
@@ -444,6 +448,7 @@ struct C09 {
             Op op;
             unsigned c = (unsigned) ops.below(100);
             op.s = (int) ops.below((uint64_t) p.sessions);
+            op.align = ops.chance(1, 2) ? 0 : (uint32_t) ops.below(4096);
             if (c < 42 || pushed[(size_t) op.s] == 0) {
                 op.kind = OP_PUSH;
                 unsigned t = (unsigned) ops.below(10);
@@ -487,6 +492,7 @@ struct C09 {
             Json q = Json::object();
             if (o.kind == OP_PUSH) {
                 q["op"] = "push"; q["s"] = o.s; q["tag"] = o.tag; q["mlen"] = o.mlen; q["adlen"] = o.adlen;
+                if (o.align) q["align"] = o.align;
                 if (o.null_outlen) q["null_outlen"] = true;
                 if (o.null_ad) q["null_ad"] = true;
             } else if (o.kind == OP_REKEY) { q["op"] = "rekey"; q["s"] = o.s; }
@@ -494,6 +500,7 @@ struct C09 {
                 q["op"] = "deliver"; q["s"] = o.s; q["pick"] = o.pick; q["fault"] = fault_name[o.fault % F_NFAULTS];
                 if (o.fault != F_INTACT) { q["fa"] = o.fa; q["fb"] = o.fb; q["to"] = o.to; }
                 q["consume"] = o.consume;
+                if (o.align) q["align"] = o.align;
                 if (o.null_mlen) q["null_mlen"] = true;
                 if (o.null_tag) q["null_tag"] = true;
                 if (o.null_ad) q["null_ad"] = true;
@@ -515,6 +522,7 @@ struct C09 {
             Op o;
             std::string k = q.at("op").str();
             o.s = (int) q.at("s").i64();
+            o.align = (uint32_t) q.at("align").u64();
             if (k == "push") {
                 o.kind = OP_PUSH; o.tag = (int) q.at("tag").i64(); o.mlen = (uint32_t) q.at("mlen").u64(); o.adlen = (uint32_t) q.at("adlen").u64();
                 o.null_outlen = q.at("null_outlen").boolean(); o.null_ad = q.at("null_ad").boolean();
@@ -561,6 +569,7 @@ struct C09 {
                 if (!o.consume) { Plan c = p; c.ops[i].consume = true; push(c); }
             }
             if (o.s) { Plan c = p; c.ops[i].s = 0; push(c); }
+            if (o.align) { Plan c = p; c.ops[i].align = 0; push(c); }
         }
         return out;
     }
